@@ -253,6 +253,29 @@ def compute(tier):
             for oid in list(failed):
                 if oid not in still:
                     unstable.append(oid)
+        # thorough: self-test of rule R11w - every labelled `for` loop desugared the way Verus desugars it must give
+        # exactly the same verdicts as the `for` form
+        forced = None
+        if tier == "thorough":
+            fdir = os.path.join(cdir, "forced")
+            try:
+                extract.FORCE_DESUGAR = True
+                fmeta = extract.build(REPO, CONTRACTS, fdir, vacuity=False)
+            except ExtractError as e:
+                fmeta = None
+                tool.append("R11w self-test: extraction failed: %s" % e)
+            finally:
+                extract.FORCE_DESUGAR = False
+            if fmeta is not None:
+                fr = run_verus(os.path.join(fdir, "woven.rs"), ["--smt-option", "smt.random_seed=%d" % seed, "--rlimit", "240"])
+                ff, ftool, _ = map_diags(fmeta, fr["diags"], "woven.rs")
+                n_loops = sum(1 for f in fmeta["functions"] for x in f["rules_applied"] if x["rule"] == "R11w")
+                forced = {"loops_desugared": n_loops, "wall_s": round(fr["wall_s"], 1),
+                          "same_verdicts": set(ff) == set(failed) and not ftool,
+                          "differences": sorted(set(ff) ^ set(failed))[:10], "tool_errors": ftool[:3]}
+                if not forced["same_verdicts"]:
+                    tool.append("R11w self-test: the desugared loop form gives different verdicts: %s %s"
+                                % (forced["differences"], ftool[:2]))
         vac = run_verus(os.path.join(cdir, "woven_vacuity.rs"))
         vfailed, vtool, _ = map_diags(vmeta, vac["diags"], "woven_vacuity.rs")
         vlines = set()
@@ -268,6 +291,10 @@ def compute(tier):
         vacuous = [o["id"] for o in probes if o["id"] not in vfailed]
         woven_text = open(os.path.join(cdir, "woven.rs")).read()
         res["witnesses"] = run_witnesses(cdir)
+        kneed = sorted(set(h for h in (kani_harness_of(oid) for oid in failed) if h))
+        if tier == "thorough":
+            kneed = KANI_ALL
+        res["kani"] = run_kani(kneed) if kneed else {}
         res.update({
             "meta": meta,
             "failed": failed,
@@ -282,6 +309,7 @@ def compute(tier):
             "vacuity": {"probes": len(probes), "failed_as_expected": len(probes) - len(vacuous),
                         "vacuous": vacuous, "wall_s": vac["wall_s"]},
             "trusted_scan": scan_trusted(woven_text),
+            "r11w_selftest": forced,
             "woven_path": os.path.join(cdir, "woven.rs"),
             "wall_s": time.time() - t0,
             "seed": seed,
@@ -316,6 +344,70 @@ def run_witnesses(cdir):
         return out
     except Exception as e:  # noqa
         return {"error": str(e)}
+
+
+KANI_HARNESS = {
+    "is_finished/ensures:table": "table_is_finished",
+    "is_failed/ensures:table": "table_is_failed",
+    "is_upstream_failure/ensures:table": "table_is_upstream_failure",
+}
+KANI_ALL = ["enumeration_is_bijective", "derived_eq_is_structural", "table_is_finished", "table_is_failed",
+            "table_is_upstream_failure"]
+
+
+def kani_harness_of(oid):
+    for suffix, h in KANI_HARNESS.items():
+        if oid.endswith(suffix):
+            return h
+    return None
+
+
+def run_kani(harnesses):
+    """Kani cross-check (second back end, CBMC): loop-free harnesses over the complete finite domain of the state
+    enums, on the repository's engine.rs included untouched.  Returns per harness: verified / counterexample codes
+    (from Kani's concrete playback) / the concrete replay of those codes on the real code."""
+    kdir = os.path.join(VERIF, "kani")
+    tdir = os.path.join(CACHE, "kani_target")
+    env = dict(os.environ, CARGO_NET_OFFLINE="true", VERIF_REPO=REPO)
+    out = {}
+    try:
+        shutil.copy(os.path.join(REPO, "Cargo.lock"), os.path.join(kdir, "Cargo.lock"))
+    except Exception:
+        pass
+    for h in harnesses:
+        t0 = time.time()
+        try:
+            p = subprocess.run(["cargo", "kani", "--target-dir", tdir, "-Z", "concrete-playback", "--concrete-playback=print",
+                                "--harness", h], cwd=kdir, env=env, capture_output=True, text=True, timeout=1800)
+        except Exception as e:  # noqa
+            out[h] = {"error": str(e)}
+            continue
+        txt = p.stdout + p.stderr
+        ok = "VERIFICATION:- SUCCESSFUL" in txt
+        failed = "VERIFICATION:- FAILED" in txt
+        codes = []
+        m = re.search(r"let concrete_vals: Vec<Vec<u8>> = vec!\[(.*?)\];", txt, re.S)
+        if m:
+            codes = [int(x) for x in re.findall(r"vec!\[(\d+)\]", m.group(1))]
+        rec = {"verified": ok, "failed": failed, "wall_s": round(time.time() - t0, 1), "counterexample_codes": codes,
+               "cmd": "cargo kani --harness %s (in /verif/kani, engine.rs of %s included untouched)" % (h, REPO)}
+        if not ok and not failed:
+            rec["error"] = txt[-600:]
+        if codes:
+            try:
+                q = subprocess.run(["cargo", "run", "--offline", "--release", "--target-dir", os.path.join(CACHE, "kani_replay_target"),
+                                    "--bin", "replay_tables", "--"] + [str(c) for c in codes],
+                                   cwd=kdir, env=env, capture_output=True, text=True, timeout=900)
+                rec["replay_on_real_code"] = [json.loads(l) for l in q.stdout.split("\n") if l.strip().startswith("{")]
+            except Exception as e:  # noqa
+                rec["replay_error"] = str(e)
+        out[h] = rec
+    return out
+
+
+def strip_tags(oid):
+    """obligation ids carry their property tags in brackets; findings / witnesses are keyed without them"""
+    return re.sub(r"\[[A-Z0-9,]*\]", "", oid)
 
 
 def load_known():
@@ -390,7 +482,8 @@ def main():
             mine.append(o)
     failed = r["failed"]
     known = [k for k in load_known() if k.get("status") == "known" and k["property"] == pid]
-    known_ids = {k["obligation"]: k for k in known}
+    known_ids_s = {strip_tags(k["obligation"]): k for k in known}
+    known_ids = {o["id"]: known_ids_s[strip_tags(o["id"])] for o in meta["obligations"] if strip_tags(o["id"]) in known_ids_s}
     viol = []
     kf_lines = []
     for o in mine:
@@ -419,6 +512,12 @@ def main():
     tool_errors = list(r["tool_errors"])
     if r["lemma_failures"]:
         tool_errors.append("spec lemma failed: " + "; ".join(r["lemma_failures"])[:300])
+    for h, krec in (r.get("kani") or {}).items():
+        if krec.get("error"):
+            tool_errors.append("kani harness %s did not run: %s" % (h, str(krec["error"])[-200:]))
+        elif krec.get("failed") and not any(kani_harness_of(oid) == h for oid in failed):
+            tool_errors.append("kani harness %s fails although the Verus obligations it cross-checks pass (assumption A-derive "
+                               "or the enumeration of states is broken)" % h)
     vac_mine = [v for v in r["vacuity"]["vacuous"] if v.split("/")[0] in fns_of]
     if vac_mine:
         tool_errors.append("vacuity probe verified (contradictory precondition/invariant): %s" % vac_mine)
@@ -443,6 +542,9 @@ def main():
         "known_findings_hit": [{"obligation": k["obligation"], "witness": k.get("witness"),
                                 "witness_result": k.get("witness_result")} for k in kf_lines],
         "witness_replays": r.get("witnesses"),
+        "r11w_selftest": r.get("r11w_selftest") or "thorough tier only",
+        "kani_crosscheck": r.get("kani") or "not run in this tier (thorough runs all five harnesses; quick runs one only to "
+                                            "obtain a counterexample for a failed table obligation)",
         "not_decided_clauses": claim.get("not_decided", []),
         "unchecked_regions": claim.get("unchecked_regions", []),
         "results_from_cache": r.get("from_cache", False),
@@ -473,22 +575,37 @@ def main():
     for o in viol:
         rp = os.path.join(REPLAYS, "%s-%s.json" % (pid, re.sub(r"[^A-Za-z0-9_.#-]+", "_", o["id"])))
         f = frec[o["fn"]]
-        wmap = json.load(open(os.path.join(CONTRACTS, "witness_map.json")))
-        wit = [r.get("witnesses", {}).get(w) for w in wmap.get(o["id"], [])]
+        wmap = {strip_tags(k): v for k, v in json.load(open(os.path.join(CONTRACTS, "witness_map.json"))).items()}
+        wit = [r.get("witnesses", {}).get(w) for w in wmap.get(strip_tags(o["id"]), [])]
         wit = [w for w in wit if w and w.get("fails")]
+        # table obligations: the second back end (Kani/CBMC, complete over the finite state domain) yields a
+        # counterexample, which is then evaluated on the real code
+        kh = kani_harness_of(o["id"])
+        krec = (r.get("kani") or {}).get(kh) if kh else None
+        cex = None
+        replayed = wit[0] if wit else None
+        replay_cmd = "replay/target/release/ppg2_replay %s" % wit[0]["witness"] if wit else None
+        if krec and krec.get("failed") and krec.get("counterexample_codes"):
+            cex = {"back_end": "kani 0.68 / cbmc (harness %s)" % kh, "state_codes": krec["counterexample_codes"]}
+            rr = krec.get("replay_on_real_code") or []
+            if rr:
+                replayed = {"witness": "state table", "fails": True, "detail": rr}
+                replay_cmd = "cd /verif/kani && VERIF_REPO=%s cargo run --offline --release --bin replay_tables -- %s" % (
+                    REPO, " ".join(str(c) for c in krec["counterexample_codes"]))
+        have_input = bool(replayed)
         json.dump({"property": pid, "obligation": o["id"], "clause": o["text"], "kind": o["kind"],
                    "source_function": o["fn"], "source": "%s:%d-%d" % (f["src_file"], f["src_line_start"],
                                                                        f["src_line_end"]),
                    "verifier": "verus", "verifier_output": failed[o["id"]],
-                   "counterexample": None,
-                   "failing_input_replayed_on_real_code": wit[0] if wit else None,
-                   "replay_cmd": "replay/target/release/ppg2_replay %s" % wit[0]["witness"] if wit else None,
-                   "note": "Verus gives no counterexample. " + ("The witness scenario attached to this obligation was "
-                           "executed against the real engine.rs and contradicts the property." if wit else
-                           "No failing input was found by the witness library.")},
+                   "counterexample": cex,
+                   "failing_input_replayed_on_real_code": replayed,
+                   "replay_cmd": replay_cmd,
+                   "note": ("Verus gives no counterexample. " if cex is None else "Verus gives no counterexample; Kani does for this "
+                            "loop-free obligation. ") + ("The failing input was executed against the real engine.rs and "
+                            "contradicts the property." if have_input else "No failing input was found by the witness library.")},
                   open(rp, "w"), indent=1)
         print("VIOLATION property=%s replay=%s obligation=%s%s" % (pid, rp, o["id"],
-              "" if wit else " no-failing-input-found"))
+              "" if have_input else " no-failing-input-found"))
         rc = 1
     cov["violated_obligations"] = [o["id"] for o in viol]
     if rc == 0 and (tool_errors or n_ob == 0):
